@@ -945,3 +945,21 @@ def _bstr_getitem_step(self, i):
 
 
 BStr.__getitem__ = _bstr_getitem_step
+
+
+# ---- realisation at C boundaries (os.fspath, str) ------------------------------------------------------
+def _bstr_realize(self):
+    """concrete text of this string on the current path (forks over the values of its symbolic characters)"""
+    from symx.engine import SInt as _SI
+    L = self.eng_concretize_len()
+    out = []
+    for c in self.chars[:L]:
+        out.append(chr(c) if isinstance(c, int) else chr(_SI(self.eng, c).concretize()))
+    self.eng.realized = getattr(self.eng, "realized", 0) + 1
+    return "".join(out)
+
+
+BStr.realize = _bstr_realize
+BStr.__fspath__ = _bstr_realize
+_bstr_repr = BStr.__repr__
+BStr.__str__ = lambda self: _bstr_realize(self) if getattr(self.eng, "realize_on_str", False) else _bstr_repr(self)
